@@ -48,6 +48,11 @@ def load(fname="filehashstore.py", mutate=None, modname=None):
     """Compile PKG/fname into a fresh module.  mutate = list of (old, new) exact-once source replacements."""
     ensure_package()
     src = source_of(fname)
+    if mutate is None and os.environ.get("HSVERIF_MUTANT"):
+        from . import mutants
+        m = mutants.selected()
+        if m[0] == fname:
+            mutate = m[1]
     if mutate:
         for old, new in mutate:
             n = src.count(old)
